@@ -268,10 +268,14 @@ func TestC17_Filter(t *testing.T) {
 	r := rec(t, "C17", c17Rule)
 	// nil filter returns its input unchanged
 	var nilF *bexpr.Filter
-	for _, x := range []interface{}{nil, 1, []int{1, 2}, map[string]int{"a": 1}} {
-		out, err := nilF.Execute(x)
-		if err != nil || uni.Snapshot(out) != uni.Snapshot(x) {
-			t.Fatalf("VIOLATION-CANDIDATE property=C17 nil filter: Execute(%v) = %v, %v", x, out, err)
+	emptyF, emptyErr := bexpr.CreateFilter("")
+	one := 1
+	for _, nf := range []*bexpr.Filter{nilF, emptyF} {
+		for _, x := range []interface{}{nil, 1, "s", 1.5, true, struct{ A int }{1}, &struct{ A int }{1}, &one, &[]int{1}, (*int)(nil), []int{1, 2}, [2]string{"a", "b"}, map[string]int{"a": 1}, []interface{}{nil}, make(chan int)} {
+			out, err := nf.Execute(x)
+			if emptyErr != nil || emptyF != nil || err != nil || uni.Snapshot(out) != uni.Snapshot(x) {
+				violation(t, "C17", "TestC17_Filter", map[string]string{"input": fmt.Sprintf("%T", x)}, "the nil Filter (what CreateFilter(\"\") returns: %v, %v) returns its input unchanged: Execute(%T %v) = (%v, %v)", emptyF, emptyErr, x, x, out, err)
+			}
 		}
 	}
 	rapid.Check(t, func(t *rapid.T) {
